@@ -221,8 +221,12 @@ def general_identifier(s):
     if callable(s):
         module, qualname = s.__module__, s.__qualname__
         if module is None and hasattr(s, '__self__'):
-            # Builtin methods on builtin types.
-            module = type(s.__self__).__module__
+            # Builtin methods on builtin types. A classmethod is bound
+            # to the class itself: datetime.datetime.fromtimestamp.
+            owner = s.__self__
+            if not isinstance(owner, type):
+                owner = type(owner)
+            module = owner.__module__
 
         if module in IMPLICIT_MODULES:
             if module == 'builtins':
